@@ -14,6 +14,8 @@ contract(SYM + '.__init__', props=['C09'], params={'value': 'str?', 'line_id': '
 contract(PP + '.create_symbol', props=['C09'], params={'value': 'str?', 'line_id': 'LineIdentifier?'},
          raises={'ValueError': 'name in self._symbols'},       # defining a symbol twice is rejected
          ensures=['name in self._symbols', 'mapping(self._symbols)[name] is result', 'result._name == name',
+                  # the replacement text is the one given (a symbol defined without a value is replaced by nothing)
+                  'implies(value is not None, result._value == value_of(value))', 'implies(value is None, result._value == "")',
                   'forall(lambda s: implies(s != name, (s in self._symbols) == old(s in self._symbols)), types={"s": "str"})',
                   'forall(lambda s: implies(s != name and (s in self._symbols),'
                   ' mapping(self._symbols)[s] is old(mapping(self._symbols))[s]), types={"s": "str"})'],
@@ -62,3 +64,16 @@ contract('bespokeasm.assembler.line_object.factory:LineOjectFactory.parse_line',
              ensures=['forall(lambda w: implies(w in ' + W.format('instruction_str') + ', not (w in preprocessor._symbols)),'
                       ' types={"w": "str"})'],
              modifies=[], allocates=True)})
+
+
+# ---- symbols predefined by the ISA configuration: every listed entry is defined, with the replacement text given ----------
+ITEM = 'cfg_item(predefined_symbols, j)'
+DEFINED = (f'cfg_str({ITEM}["name"]) in self._symbols and mapping(self._symbols)[cfg_str({ITEM}["name"])]._value == '
+           f'ite("value" in {ITEM}, cfg_str({ITEM}["value"]), "")')
+contract(PP + '.__init__', name='config-symbols', props=['C09'], params={'predefined_symbols': 'cfg'},
+         may_raise={'SystemExit': 'True'},
+         ensures=[f'forall(lambda j: implies(0 <= j and j < cfg_len(predefined_symbols), {DEFINED}))'],
+         modifies=['self._symbols'], allocates=True, no_frame_check=True,
+         loops={'0': dict(idx='i', allocates=True, modifies=['self._symbols[*]'],
+                          inv=['i <= cfg_len(predefined_symbols)', 'fresh(self._symbols)',
+                               f'forall(lambda j: implies(0 <= j and j < i, {DEFINED}))'])})
